@@ -86,6 +86,17 @@ Theorem C03_integration_rescale_invariant : forall c, 0 < c -> forall shape grid
 Proof. exact integrate_const_rescale_invariant. Qed.
 Print Assumptions C03_integration_rescale_invariant.
 
+(** the same for time-varying parameters: nu(t) -> c nu(t/c), m(t) -> m(t/c)/c, gamma(t) -> gamma(t/c)/c,
+    theta0(t) -> theta0(t/c)/c, integrated from c t to c T *)
+Theorem C03_integration_rescale_invariant_timedep : forall c, 0 < c -> forall shape grids,
+  (forall k, (k < length shape)%nat -> length (nth k grids []) = ax_len shape k /\ (2 <= length (nth k grids []))%nat) ->
+  forall popsf thetaf, (forall s, wf_pops shape (popsf s)) -> forall dj tf, 0 < tf ->
+  (forall s dt, 0 < dt -> nonsingular shape grids (popsf s) dj dt) ->
+  forall fuel t T phi,
+  integrate_tdep fuel shape grids (popsf' c popsf) (thetaf' c thetaf) tf dj (c * t) (c * T) phi =
+  integrate_tdep fuel shape grids popsf thetaf tf dj t T phi.
+Proof. exact integrate_tdep_rescale_invariant. Qed.
+
 (** the time-step rule promises exactly that: dt scales with c *)
 Theorem C03_time_step_rule_scales : forall c, 0 < c -> forall tf pops,
   dt_of tf (map (rescale_pop c) pops) = option_map (Rmult c) (dt_of tf pops).
